@@ -30,7 +30,7 @@ from fractions import Fraction
 
 from xfabsa import core, tables
 from xfabsa.core import AnalysisError
-from xfabsa.poly import Rat
+from xfabsa.poly import Rat, single_atom
 from xfabsa.symeval import Arr, Opaque, RaiseReached, Undecided, scalar, materialise, sym_array, const_int, _Return
 from xfabsa.objeval import PyRaise
 from props.hklwalk import TailEval, Sorted, _bind_params
@@ -215,6 +215,16 @@ class WalkEval(TailEval):
         self.thresholds = set()
         self.new_threshold = False
         self.cell_sign = 1
+
+    def apply_unary(self, fname, x, node):
+        if fname in ("abs", "absolute", "fabs") and isinstance(x, Rat):
+            a_ = single_atom(x)
+            if a_ is not None and a_.startswith("S["):
+                return x                 # sin(theta)/lambda is not negative
+        return TailEval.apply_unary(self, fname, x, node)
+
+    def _unused(self):
+        pass
         self.flip = None
 
     @staticmethod
